@@ -284,7 +284,7 @@ func (p *prop) Generate(rng *core.Rand, tier string, emit func(string)) {
 	for c := 0; c < ncf; c++ {
 		emit(genCF(rng))
 	}
-	for _, l := range []string{"cf . 0 . .", "cf _ 0 _ _", "cf . 3 . .", "cf . 0 .", "cf zz 0 . .", "cf 2b 0 . ."} {
+	for _, l := range []string{"cf . 0 . . g", "cf _ 0 _ _ t", "cf . 3 . . g", "cf . 0 . .", "cf zz 0 . . g", "cf 2b 0 . . t", "cf . 0 . . x"} {
 		emit(l)
 	}
 	// PROXY protocol listener wrapper: who may say what the remote address is
